@@ -23,6 +23,8 @@ class ScriptSock(socket.socket):
             self._events.append(["recv", 0])
             if self._end == "timeout":
                 raise TimeoutError("timed out")
+            if self._end == "reset":
+                raise ConnectionResetError(104, "Connection reset by peer")
             return b""
         h = self._segs[0]
         d = h[:bufsize]
@@ -35,6 +37,8 @@ class ScriptSock(socket.socket):
 
     def send(self, data, *a):
         self._events.append(["send", list(bytes(data))])
+        if len(data) == 9:
+            raise TimeoutError("send timed out")  # a transient failure of the outbound side: must not affect what is read afterwards
         return len(data)
 
 
@@ -93,7 +97,7 @@ def obs_wrapper(case):
                 events.append(["ret", [-2, len(type(ex).__name__)]])
     finally:
         sock.close()
-    return {"kind": "wrapper", "S": list(S), "events": events, "bufsize": case["bufsize"]}
+    return {"kind": "wrapper", "S": list(S), "events": events, "bufsize": case["bufsize"], "scripted": 1}
 
 
 _KEEP = []
